@@ -261,7 +261,10 @@ def validation(chk, dprog, cfg):
         alts = list(rt[1]) if rt[0] == "phi" else [rt]
         err = [a for a in alts if is_adt_agg(a, "core::result::Result", "Err") and any(is_call(x, "syn::lookahead::Lookahead1::error") for x in mir.walk(a))]
         oks = [a for a in alts if is_adt_agg(a, "core::result::Result", "Ok")]
-        chk.expect(len(err) == 1 and len(oks) == 5, "R20.3", "ScaleInfoAttr::parse:closed", pb.where(), "%d Ok alternatives, fall-through Err(lookahead.error()): %d" % (len(oks), len(err)), cfg)
+        if not oks:
+            chk.abstain("R20.3", "ScaleInfoAttr::parse:closed", pb.where(), "the parser does not return Ok(..) aggregates directly", cfg, decided_by="witnesses c20_unknown_attr, c20_unknown_attr_nv, c20_invalid_capture_docs (R20.4)")
+        else:
+            chk.expect(len(err) == 1 and len(oks) == 5, "R20.3", "ScaleInfoAttr::parse:closed", pb.where(), "%d Ok alternatives, fall-through Err(lookahead.error()): %d" % (len(oks), len(err)), cfg)
     else:
         chk.anchor_missing("ScaleInfoAttr::parse")
     cands = [p for p in dprog.fns if p.startswith("<scale_info_derive::attr::CaptureDocsAttr as syn::parse::Parse>::parse")]
@@ -271,7 +274,10 @@ def validation(chk, dprog, cfg):
         alts = list(rt[1]) if rt[0] == "phi" else [rt]
         oks = [a for a in alts if is_adt_agg(a, "core::result::Result", "Ok")]
         errs2 = [a for a in alts if is_adt_agg(a, "core::result::Result", "Err") and any(is_call(x, "syn::error::Error::new_spanned") for x in mir.walk(a))]
-        chk.expect(len(oks) == 3 and len(errs2) == 1, "R20.3", "CaptureDocsAttr::parse:closed", pb.where(), "%d Ok alternatives, wildcard Err: %d" % (len(oks), len(errs2)), cfg)
+        if not oks:
+            chk.abstain("R20.3", "CaptureDocsAttr::parse:closed", pb.where(), "the parser does not return Ok(..) aggregates directly", cfg, decided_by="witnesses c20_unknown_attr, c20_unknown_attr_nv, c20_invalid_capture_docs (R20.4)")
+        else:
+            chk.expect(len(oks) == 3 and len(errs2) == 1, "R20.3", "CaptureDocsAttr::parse:closed", pb.where(), "%d Ok alternatives, wildcard Err: %d" % (len(oks), len(errs2)), cfg)
     else:
         chk.anchor_missing("CaptureDocsAttr::parse")
     # union
